@@ -411,27 +411,50 @@ def native_replay(repo, unit, tests, descs):
 
 # ------------------------------------------------------------------ native stand-ins
 
+
+def run_group(cmd, cwd, env, timeout):
+    """run a command in its own process group; on timeout kill the whole group (cargo AND the test binary it spawned).
+    Returns (output so far, timed_out)."""
+    import signal
+    p = subprocess.Popen(cmd, cwd=cwd, env=env, stdout=subprocess.PIPE, stderr=subprocess.STDOUT, text=True, start_new_session=True)
+    try:
+        out, _ = p.communicate(timeout=timeout)
+        return out, False
+    except subprocess.TimeoutExpired:
+        try:
+            os.killpg(p.pid, signal.SIGKILL)
+        except Exception:
+            pass
+        try:
+            out, _ = p.communicate(timeout=30)
+        except Exception:
+            out = ''
+        return (out or ''), True
+
 def run_native(repo, nhs, logpath, tier='quick'):
     cmd = ['cargo', 'test', '--offline', '--lib', 'verif_native_', '--', '--test-threads', '8']
     env = dict(os.environ, CARGO_NET_OFFLINE='true', CARGO_TERM_COLOR='never', RUSTFLAGS='--cfg verif_native', RUST_BACKTRACE='0', VERIF_TIER=tier)
-    try:
-        out = subprocess.run(cmd, cwd=repo, env=env, stdout=subprocess.PIPE, stderr=subprocess.STDOUT, text=True, timeout=3000).stdout
-    except subprocess.TimeoutExpired:
-        out = 'native run timed out'
+    overall = 1500 if tier == 'quick' else 6000
+    out, timed_out = run_group(cmd, repo, env, overall)
+    if timed_out:
+        # keep what the tests that did finish reported; the ones that did not are re-run one by one below
+        out += '\nnative run timed out'
     open(logpath, 'w').write(out)
     res = {}
     for m in re.finditer(r'^test (\S+) \.\.\. (ok|FAILED)', out, re.M):
         res[m.group(1).split('::')[-1]] = m.group(2)
     # a stack overflow / abort kills the whole test binary: isolate the tests that did not report
     missing = [h for h in nhs if h.name not in res]
-    if missing and re.search(r'overflowed its stack|signal: \d+|SIGABRT|SIGSEGV', out):
+    if timed_out:
+        # libtest prints failure messages only at the very end: re-run the failed ones too, to get their text
+        missing += [h for h in nhs if res.get(h.name) == 'FAILED']
+    if missing and (timed_out or re.search(r'overflowed its stack|signal: \d+|SIGABRT|SIGSEGV', out)):
         for h in missing:
             c1 = ['cargo', 'test', '--offline', '--lib', h.name, '--', '--exact', '--test-threads', '1']
             c1[4] = h.fq
-            try:
-                o1 = subprocess.run(c1, cwd=repo, env=env, stdout=subprocess.PIPE, stderr=subprocess.STDOUT, text=True, timeout=1500).stdout
-            except subprocess.TimeoutExpired:
-                o1 = 'timed out'
+            o1, t1 = run_group(c1, repo, env, 600 if tier == 'quick' else 3000)
+            if t1:
+                o1 += '\ntimed out'
             m1 = re.search(r'^test \S+ \.\.\. (ok|FAILED)', o1, re.M)
             if m1:
                 res[h.name] = m1.group(1)
